@@ -21,7 +21,8 @@ for p in sys.argv[2:]:
     mod = importlib.import_module(f'pjx.props.{p.lower()}')
     ck = Check(p, 'quick', 0)
     try:
-        mod.run(ck, prog)
+        from pjx.props import run_check
+        run_check(mod, ck, prog)
     except AnalysisError as e:
         print(p, 'ANALYSIS-ERROR:', e)
         continue
